@@ -14,6 +14,7 @@ import (
 	"path/filepath"
 	"strings"
 	"sync/atomic"
+	"syscall"
 	"time"
 
 	"github.com/transparency-dev/witness/internal/verif/kit/gen"
@@ -42,6 +43,8 @@ type World struct {
 	A, B *gen.Log
 	Keys *wit.WitKeys
 	cfg  map[string]any
+	// ChildTimeout bounds one child run (default 60 s); a child that is still running then is killed and reported as "watchdog".
+	ChildTimeout time.Duration
 }
 
 func NewWorld(r *rand.Rand) *World {
@@ -75,7 +78,7 @@ func (w *World) Scripts() []Script {
 		{"first_use", []Upd{w.Step(1, a, 0, 5)}},
 		{"growth", []Upd{w.Step(1, a, 0, 5), w.Step(2, a, 5, 9)}},
 		{"refresh", []Upd{w.Step(1, a, 0, 5), w.Step(2, a, 5, 5)}},
-		{"growth_after_refused", []Upd{w.Step(1, a, 0, 5), stale, w.Step(3, a, 5, 9)}},
+		{"growth_after_refused", []Upd{w.Step(1, a, 0, 5), stale, w.Step(3, a, 5, 9), w.Step(4, a, 9, 9), w.Step(5, a, 9, 12)}},
 		{"two_logs", []Upd{w.Step(1, b, 0, 4), w.Step(2, a, 0, 5), w.Step(3, b, 4, 8), w.Step(4, a, 5, 9)}},
 	}
 }
@@ -100,10 +103,18 @@ func (w *World) Child(dir string, db string, ups []Upd, killAt int, phase string
 	b, _ := json.Marshal(cfg)
 	_ = os.WriteFile(sp, b, 0o644)
 	args := append(append([]string{}, wrap...), os.Getenv("VERIF_BIN_C06CHILD"), sp)
-	ctx, cancel := context.WithTimeout(context.Background(), 60*time.Second)
+	lim := w.ChildTimeout
+	if lim == 0 {
+		lim = 60 * time.Second
+	}
+	ctx, cancel := context.WithTimeout(context.Background(), lim)
 	defer cancel()
 	cmd := exec.CommandContext(ctx, args[0], args[1:]...)
 	cmd.Env = append(os.Environ(), "VERIF_KILL_AT=")
+	// the child may sit under strace: on timeout kill the whole process group, and do not wait for inherited pipes
+	cmd.SysProcAttr = &syscall.SysProcAttr{Setpgid: true}
+	cmd.Cancel = func() error { return syscall.Kill(-cmd.Process.Pid, syscall.SIGKILL) }
+	cmd.WaitDelay = 2 * time.Second
 	out, err = cmd.CombinedOutput()
 	if ctx.Err() != nil {
 		err = fmt.Errorf("watchdog")
